@@ -1183,11 +1183,19 @@ func GenC16(seed, index uint64, build string, funcs, hot, sharedHot []string) *R
 		run.Sched = sched.Spec{Policy: "walk", P: p}
 	case 2:
 		var fs []string
+		q := 0.0
 		if len(sharedHot) > 0 && r.P(0.5) {
 			// functions that write state which outlives the call (package-level
 			// variables, variables captured by closures) come first
 			for i, k := 0, 1+r.N(2); i < k; i++ {
 				fs = append(fs, sharedHot[r.N(len(sharedHot))])
+			}
+			if r.P(0.5) {
+				// and some ordinary overlap elsewhere
+				q = 1e-5
+				for i, k := 0, r.N(7); i < k; i++ {
+					q *= 3.2
+				}
 			}
 		} else if len(hot) > 0 && r.P(0.6) {
 			// aim at the functions that touch package-level state or
@@ -1200,7 +1208,7 @@ func GenC16(seed, index uint64, build string, funcs, hot, sharedHot []string) *R
 				fs = append(fs, funcs[r.N(len(funcs))])
 			}
 		}
-		run.Sched = sched.Spec{Policy: "site", P: 0.05 + 0.95*r.F()*r.F(), Funcs: fs}
+		run.Sched = sched.Spec{Policy: "site", P: 0.05 + 0.95*r.F()*r.F(), Funcs: fs, Q: q}
 	case 3:
 		run.Sched = sched.Spec{Policy: "rr", K: uint64(1 + r.N(2000))}
 	default:
